@@ -66,6 +66,31 @@ def make_tape_err(tape, mode):
                     side = False                  # some steps / dimensions refine only the deepest intervals
                 deepest = obj.coarsening_level == 0 and t % 3 != 0
                 return 1.0 if (side or deepest) else 0.0
+            if self.mode == 8 and hasattr(obj, "this_dim"):
+                # one dimension per step: only the intervals of the step's active dimension get (tie-rich) tape values, all
+                # others 0 - steps that leave whole dimensions untouched (deferred rebalancing rotations, stale per-dimension
+                # bookkeeping); tape value 2 of a 2-d case means "no restriction in this step"
+                if obj.this_dim == 0 and obj.start == obj.a:
+                    self.step = getattr(self, "step", -1) + 1
+                active = self.tape[(getattr(self, "step", 0) // 2) % len(self.tape)] % 3      # two steps per draw
+                if obj.this_dim != active and not (active == 2 and obj.this_dim < 2 and getattr(self, "step", 0) % 2):
+                    return 0.0
+                if self.tape[0] % 3 != 0:        # (most of) the deepest intervals of the active dimension: both children of an earlier split
+                    return 1.0 if (obj.coarsening_level == 0 and t % 4 != 0) else 0.0
+                return float([1.0, 0.95, 0.0, 1.0, 0.5][t % 5])
+            if self.mode == 9 and hasattr(obj, "this_dim"):
+                # exactly one interval of one dimension per step (the one containing a drawn position): strongly anisotropic
+                # level differences between the dimensions, lagging dimensions raised late; a drawn dimension the case does
+                # not have gives an all-zero step (everything is refined)
+                if obj.this_dim == 0 and obj.start == obj.a:
+                    self.step = getattr(self, "step", -1) + 1
+                st_ = getattr(self, "step", 0)
+                L = len(self.tape)
+                d = [0, 1, 1, 0, 2, 0, 1][self.tape[st_ % L] % 7]
+                if self.tape[0] % 2 and st_ % 4 < 2:
+                    d = self.tape[(st_ // 4) % L] % 2          # runs of two steps in the same dimension
+                x = obj.a + (obj.b - obj.a) * ([0.1, 0.6, 0.9, 0.3][self.tape[(st_ + 1) % L] % 4] if self.tape[0] % 3 else 0.1)
+                return 1.0 if (obj.this_dim == d and obj.start <= x < obj.end) else 0.0
             if self.mode in (5, 6):
                 # refinement directed at one target point (strongly graded trees, rebalancing rotations);
                 # mode 6 adds low background noise from the tape
@@ -148,7 +173,7 @@ def scale_class(case):
 
 
 def st_tape(draw, maxlen=48):
-    mode = draw(st.sampled_from([0, 0, 0, 1, 1, 2, 2, 3, 4, 5, 5, 6, 7, 7, 7]))
+    mode = draw(st.sampled_from([0, 0, 0, 1, 1, 2, 2, 3, 4, 5, 5, 6, 7, 7, 7, 8, 8, 8, 9, 9, 9]))
     tape = draw(st.lists(st.integers(0, 63), min_size=1, max_size=maxlen))
     return tape, mode
 
@@ -172,6 +197,20 @@ def st_dw_case(draw, tier="quick", versions=(6, 6, 6, 2, 3, 7, 8), maxdim=3, lmi
                 fseed=draw(st.integers(0, 10 ** 6)),
                 legs=draw(st.one_of(st.none(), st.none(), st.lists(st.sampled_from([1, 1, 5, 20, 60]), min_size=1, max_size=6))),
                 rerun=draw(st.one_of(st.none(), st.none(), st.none(), st.sampled_from([[1, 2], [1, 3], [2, 3], [2, 4]]))))
+    if mode == 8:
+        # the one-dimension-per-step histories are about rotations deferred to a later step: keep the options in the range
+        # where rotations happen at all (measured: margin 0, safety factor 0.5 and histories of <= 3 steps never rotate)
+        c["rebalancing"] = draw(st.sampled_from([True, True, True, False]))
+        c["maxsteps"] = draw(st.sampled_from([5, 8, 12, 16]))
+        c["margin"] = draw(st.sampled_from([m for m in margins if m > 0] or list(margins)))
+        c["safety"] = draw(st.sampled_from([x for x in safeties if x < 0.5] or list(safeties)))
+        c["maxev"] = hi
+    if mode == 9:
+        # single-interval steps change little per step: the interesting level differences need at least ~5 steps
+        c["maxsteps"] = draw(st.sampled_from([5, 8, 8, 12]))
+        c["maxev"] = hi
+        if c["margin"] == 0:
+            c["margin"] = 0.9
     return apply_boxscale(c, st_boxscale(draw, dim) if scales else None)
 
 
@@ -306,13 +345,14 @@ def build_dw(case, f, reference=None, grid=None, **extra):
     return sa, op
 
 
-def build_es(case, f, reference=None):
+def build_es(case, f, reference=None, grid=None):
     from sparseSpACE.spatiallyAdaptiveExtendSplit import SpatiallyAdaptiveExtendScheme
     from sparseSpACE.GridOperation import Integration
     from sparseSpACE.Grid import TrapezoidalGrid
     a = np.array(case["a"], dtype=float)
     b = np.array(case["b"], dtype=float)
-    grid = TrapezoidalGrid(a, b, boundary=case["boundary"])
+    if grid is None:
+        grid = TrapezoidalGrid(a, b, boundary=case["boundary"])
     op = Integration(f, grid=grid, dim=case["dim"], reference_solution=reference, print_level=Q, log_level=Q)
     sa = SpatiallyAdaptiveExtendScheme(a, b, number_of_refinements_before_extend=case["nref"], version=case["version"],
                                        operation=op, automatic_extend_split=case["auto"], split_single_dim=case["ssd"])
